@@ -1524,6 +1524,35 @@ def restart_fidelity(ctx, name, rng, scripted):
                     do('DeleteAttribute %s Object Group 0' % v, [kdrv.delete_attribute_v1(v, 'Object Group', 0)])
                 else:
                     do('ModifyAttribute %s Name 0' % v, [kdrv.modify_attribute_v1(v, kdrv.attr(AT.NAME, kdrv.name_value('renamed-%d' % i), 0))])
+        # round 8 (C09O): values on both sides of the widths a binary column may be declared with; what the restarted
+        # server holds must be the WHOLE acknowledged value (compared with the bytes sent, not only with the live read)
+        sent = {}
+        for n in ([1025, 2049, 24 * 1024] if scripted else [rng.choice([1024, 1025, 2047, 2048, 2049, 4096, 4097, 65537])]):
+            ot = OT.OPAQUE_DATA if scripted else rng.choice([OT.OPAQUE_DATA, OT.SECRET_DATA, OT.CERTIFICATE])
+            val = bytes(bytearray((i * 11 + n) % 251 for i in range(n)))
+            r = do('Register %s with a value of %d bytes' % (ot.name, n), [kdrv.register(ot, secret=kdrv.secret_for(ot, val))])
+            u = kdrv.first_uid(r['items'][0]) if r['items'] and kdrv.ok(r['items'][0]) else None
+            if u:
+                sent[int(u)] = val.hex()
+
+        def whole_values(when):
+            for u, hx in sorted(sent.items()):
+                g = eng.request([kdrv.get(str(u))], user='alice')['items'][0]
+                got = json.dumps(g.get('payload'), sort_keys=True, default=str)
+                ctx.count('restart.big-values-compared', 1)
+                if not kdrv.ok(g) or hx not in got:
+                    ctx.violation({'class': 'acknowledged-not-durable', 'op': 'restart', 'attribute': 'value-bytes'},
+                                  {'history': history, 'when': when, 'object': u, 'sent_bytes': len(hx) // 2,
+                                   'get_answer': got[:300] + '...' if len(got) > 300 else got,
+                                   'how': 'Register the value, then Get it through the live engine and through a new KmipEngine '
+                                          'started on the same database file; the value returned must contain the bytes sent'},
+                                  '%s: object %s was registered with %d bytes and acknowledged, Get does not return them whole'
+                                  % (when, u, len(hx) // 2))
+                    return False
+            return True
+
+        if not whole_values('before any restart'):
+            return
         listed0, before = read_everything(eng)
         for round_ in (1, 2):
             eng.engine._data_store.dispose()
@@ -1532,6 +1561,8 @@ def restart_fidelity(ctx, name, rng, scripted):
             except Exception as e:  # noqa
                 ctx.violation({'class': 'unreadable-or-partial', 'op': 'restart', 'cut': 'restart'}, {'history': history, 'restart': round_},
                               'the server cannot be restarted on its own database: %r' % (e,))
+                return
+            if not whole_values('after restart %d' % round_):
                 return
             listed1, after = read_everything(eng)
             ctx.count('restart.objects-compared', len(before))
